@@ -11,7 +11,7 @@ spec -> code  schedules from TLC simulation are executed on real client and serv
               TCP and UDP, with and without an idle period longer than the 5 s housekeeping tick (thorough: longer than the 60 s idle
               timeout); every operation runs in its own goroutine and is timed; afterwards both ends are shut down and the goroutines
               that still carry the scenario's pprof label are listed.  The same driver is run under the race detector
-code -> spec  TLC validates the timed records (Trace_Lifecycle): DeadlineBounds, LocalCloseReleases, RemoteCloseReleases,
+code -> spec  TLC validates the timed records (Trace_Lifecycle): NoSpuriousTimeout, DeadlineBounds, LocalCloseReleases, RemoteCloseReleases,
               FailureReleases, ClosePrompt, NothingLeftRunning, with the bounds of the cfg (1.5 s deadline slack, 4 s local, 9 s remote /
               failure / close)
 """
@@ -24,7 +24,7 @@ import subprocess
 import vlib
 from vlib import Inconclusive
 
-PROPS = ("DeadlineBounds", "LocalCloseReleases", "RemoteCloseReleases", "FailureReleases", "ClosePrompt", "NothingLeftRunning")
+PROPS = ("NoSpuriousTimeout", "DeadlineBounds", "LocalCloseReleases", "RemoteCloseReleases", "FailureReleases", "ClosePrompt", "NothingLeftRunning")
 
 
 def schedules(ctx, n):
@@ -51,6 +51,9 @@ def named():
     close = lambda e: {"op": "close", "ep": e}
     mclose = lambda e: {"op": "mclose", "ep": e}
     out = []
+    # a Write whose response nobody reads for 13 s, then a Read without deadline: it has to wait, not fail at once
+    out.append(("read-long-after-a-write-C", [W("C"), P(65), R("C"), P(3)]))
+    out.append(("read-long-after-an-answered-write-C", [R("C"), W("C"), W("S"), P(65), R("C"), P(3)]))
     for e in ("C", "S"):
         p = "S" if e == "C" else "C"
         out.append(("deadline-then-two-reads-" + e, [rdl(e, 2), W(p), R(e), P(1), R(e), P(3), P(3)]))
@@ -103,7 +106,7 @@ def run_driver(ctx, wd, rows, name, race=False, par=12, timeout=3000):
 
 def run(ctx):
     ctx.level = "model_checking"
-    ctx.coverage["rule"] = ("schedules of 14 steps from TLC simulation plus 32 named schedules, each on TCP and UDP, one in five after 5.5 s of "
+    ctx.coverage["rule"] = ("schedules of 14 steps from TLC simulation plus 34 named schedules, each on TCP and UDP, one in five after 5.5 s of "
                             "idleness; distinct_nontrivial = scenarios containing a close, a failure or a deadline")
     ctx.assumptions += ["real time on a loaded machine: bounds are 1.5 s (deadline), 4 s (local close), 9 s (remote close, failure, Close itself)",
                         "a UDP black hole is not asserted to release operations in the quick tier (the idle timeout is 60 s)",
